@@ -288,7 +288,12 @@ pub fn run(u: &mut Universe, b: &Batch, st: &mut Stats) {
                         // the step numbers after the move may belong to other calls than in the
                         // fault-free trace; what matters is "a resource fault somewhere later"
                         for e in [libc::EMFILE, libc::ENOMEM, libc::ENAMETOOLONG] {
-                            if !crate::sup::fault_catalogue(*nr2).iter().any(|f| matches!(f, crate::sup::Fault::Errno(x) if *x == e || *x == libc::ENFILE)) {
+                            if e == libc::ENAMETOOLONG {
+                                // not a placement but a condition of the whole run: once per move window
+                                if i2 != i1 + 1 {
+                                    continue;
+                                }
+                            } else if !crate::sup::fault_catalogue(*nr2).iter().any(|f| matches!(f, crate::sup::Fault::Errno(x) if *x == e || *x == libc::ENFILE)) {
                                 continue;
                             }
                             k += 1;
@@ -298,10 +303,11 @@ pub fn run(u: &mut Universe, b: &Batch, st: &mut Stats) {
                                 continue;
                             }
                             let case = if e == libc::ENAMETOOLONG {
-                                // the moved directory now lives deeper than PATH_MAX: *every* later readlink
-                                // of a descriptor's path fails, not one
+                                // whatever is moved out of the root ends up nested deeper than PATH_MAX:
+                                // *every* later readlink of such a descriptor's path fails (the root's
+                                // own path, and everything still inside it, reads fine)
                                 let mut c = fault_pair_case(&b.uni, li, vec![Dec { step: *w1, attack: vec![mv.clone()], ..Default::default() }]);
-                                c.plan.sticky = Some((*w2, e));
+                                c.plan.outside_too_long = true;
                                 c
                             } else {
                                 fault_pair_case(&b.uni, li, vec![Dec { step: *w1, attack: vec![mv.clone()], ..Default::default() }, Dec { step: *w2, fault: Some(crate::sup::Fault::Errno(e)), ..Default::default() }])
@@ -313,6 +319,9 @@ pub fn run(u: &mut Universe, b: &Batch, st: &mut Stats) {
                                 return;
                             }
                             st.count("enum_fault.pairs_covered", 1);
+                            if e == libc::ENAMETOOLONG && std::env::var_os("DBG_C02").is_some() {
+                                eprintln!("DBG li={li} w1={w1} w2={w2} outcome={:?} faults={:?} attacks={:?}", out.records.iter().map(|r| r.outcome.class()).collect::<Vec<_>>(), out.faults_fired, out.attacks_applied);
+                            }
                             eval(&case, &mut out, &atk, st);
                             if u.poisoned {
                                 return;
